@@ -1296,6 +1296,8 @@ func (e *Exec) call(caller *frame, fn Value, args []Value) Value {
 		return e.callFn(caller, fn.Fn, args, fn.Env)
 	case *ssa.Builtin:
 		return e.callBuiltin(caller, fn, args)
+	case NativeFunc:
+		return fn(e, args)
 	case nil:
 		panic(rtPanic("invalid memory address or nil pointer dereference (nil func)"))
 	}
